@@ -11,6 +11,7 @@ CONSTANTS
   OpSet2 = {}
   FocusR = FALSE
   Fan = 1
+  ValSet = {"p2"}
   Seed = 0
 INIT Init
 NEXT Next
